@@ -12,7 +12,7 @@ EXPLANATION = ('Coefficient vectors are symbolic (one symbol per coefficient; sp
                'compared with the explicit sum of coefficient times single-order mode at a symbolic point. lstsq: data is '
                'synthesised from symbolic coefficients on a concrete rational grid with an enumerated NaN mask and the fit must '
                'return the coefficients.')
-BOUNDS = {'quick': 'coefficient vectors of length 1..5; Q2d azimuthal orders m<=3 with every presence pattern of cosine/sine families for m<=2; lstsq grids 3x3,3x4 with 6 masks',
+BOUNDS = {'quick': 'coefficient vectors of length 1..5; Q2d azimuthal orders m<=3 with every presence pattern of cosine/sine families for m<=2; lstsq grids 3x3,3x4 with 6 masks; coordinate buffers reused across calls (unchanged + second call)',
           'thorough': 'length 1..7; m<=4; lstsq grids up to 4x5 with 10 masks'}
 OUTSIDE = 'rank-deficient fits; Interferogram.pvr (consumer)'
 NDERIVED = 40
